@@ -250,6 +250,18 @@ def runTx (fuel gas : Nat) (p : List (Prog N)) (v : View N) : Outcome × View N 
   else if r.1 = .abort then (.abort, v, 0)
   else (r.1, commit (r.2.1.revertTo 0), if r.1 = .revert then r.2.2 else 0)
 
+/-- a transaction whose `to` is the precompile itself (a direct call by an externally owned account): the root frame IS
+the precompile call — `evm.Call` snapshots, moves the transaction's value, runs the precompile with `readonly = false`,
+reverts to the snapshot on any error -/
+def runTxPre (fuel gas : Nat) (xfer : Option (N → N)) (req : Nat) (sh : RunShape) (out : N → N)
+    (inner : List (Nat × List (Prog N))) (act : ActionX N) (v : View N) : Outcome × View N × Nat :=
+  let s0 : St N := { toView := v, journal := [] }
+  let s1 := match xfer with | some f => s0.transfer f | none => s0
+  let r := runPre (exec fuel) false false gas req sh out inner act s1
+  if r.1 = .ok then (.ok, commit r.2.1, r.2.2)
+  else if r.1 = .abort then (.abort, v, 0)
+  else (r.1, commit (r.2.1.revertTo 0), if r.1 = .revert then r.2.2 else 0)
+
 /-! ## Spec: the same language with whole-state snapshots instead of a journal
 "The surviving effects are those of calls all of whose enclosing frames returned normally": a frame that does not return
 normally hands back the state it was entered in.  The spec gives a meaning to precompile calls of the clean shape only
@@ -326,6 +338,12 @@ def spec (fuel : Nat) (ro : Bool) (gas : Nat) (p : List (Prog N)) (v : View N) :
 /-- transaction-level spec: a transaction that does not end normally commits the state it started in -/
 def specTx (fuel gas : Nat) (p : List (Prog N)) (v : View N) : Outcome × View N × Nat :=
   let r := spec fuel false gas p v
+  if r.1 = .ok then (.ok, r.2.1, r.2.2) else (r.1, v, if r.1 = .revert then r.2.2 else 0)
+
+def specTxPre (fuel gas : Nat) (xfer : Option (N → N)) (req : Nat) (sh : RunShape) (out : N → N)
+    (inner : List (Nat × List (Prog N))) (act : ActionX N) (v : View N) : Outcome × View N × Nat :=
+  let v1 := match xfer with | some f => { v with native := f v.native } | none => v
+  let r := specPre (spec fuel) false false gas req sh out inner act v1
   if r.1 = .ok then (.ok, r.2.1, r.2.2) else (r.1, v, if r.1 = .revert then r.2.2 else 0)
 
 /-- every precompile call in the program (at any depth, also inside the EVM calls precompiles make) has the clean shape -/
